@@ -252,6 +252,25 @@ class Engine:
                     model = self._extract_model(self.finite_model())
                 else:
                     st, backend = ext_st, ext_backend
+                if st == 'unknown':
+                    # last resort against the erratic sequence/string solver and a busy machine: the same query in a FRESH solver
+                    # with other random seeds (only `unsat` and `sat` with a model count; still unknown -> undecided, exit 2)
+                    for seed in (7, 23, 101):
+                        fresh = z3.Solver(ctx=self.solver.ctx)
+                        fresh.set('timeout', self.timeout_ms)
+                        fresh.set('random_seed', seed)
+                        for a in self.solver.assertions():
+                            fresh.add(a)
+                        r3 = fresh.check()
+                        if r3 == z3.unsat:
+                            st, backend = 'proved', f'z3-{z3.get_version_string()}(seed {seed})'
+                            break
+                        if r3 == z3.sat:
+                            # let the main solver produce the model in its own (incremental) state, bounded by its budget
+                            if self.solver.check() == z3.sat:
+                                st, backend = 'refuted', f'z3-{z3.get_version_string()}(seed {seed})'
+                                model = self._extract_model(self.finite_model())
+                            break
                 if st == 'refuted' and model is None and not canary:
                     # (a canary only needs "satisfiable": a CLI `sat` is enough to show that the path is not vacuous)
                     st = 'unknown'   # no model in hand from the CLI: never report as a violation
